@@ -18,13 +18,17 @@ ALPHA = {
     "plain": ["x a", "y b", "ab", "  a", "a  ", "", "   ", "q 2", "10", "z 9.5", "k\ta", "b"],
 }
 ALPHA["group2"] = ALPHA["group"]
+ALPHA["anchored"] = ALPHA["group"]
+ALPHA["maybe-empty"] = ALPHA["none"]
 ALPHA_NUM = {
     "none": ["2", "10", "9.5", "-3", "2.0", "", "   ", "  2", "10  ", "1e1"],
     "group": ["id: 2", "id: 10", "id: 9.5", "id: -3", "id: 2.0", "", "other", "  id: 2", "id: 10  ; x", "id: 1e1"],
     "plain": ["x 2", "10", "z 9.5", "-3", "q 2.0", "", "   ", "  2", "10  ", "k\t1e1"],
 }
 ALPHA_NUM["group2"] = ALPHA_NUM["group"]
-PATTERN = {"none": None, "group": r"id: (?P<value>\S+)", "plain": r"\S+$", "group2": r"(id|zz id): (?P<value>\S+)( ;)?"}
+ALPHA_NUM["anchored"] = ALPHA_NUM["group"]
+PATTERN = {"none": None, "group": r"id: (?P<value>\S+)", "plain": r"\S+$", "group2": r"(id|zz id): (?P<value>\S+)( ;)?",
+           "anchored": r"^\s*id: (?P<value>\S+)$", "maybe-empty": r"\d*"}
 DIRECTIONS = ["asc", "desc", "", "ASC", "Desc", None]   # None = bare attribute
 
 RULE = ("Bounded-exhaustive: every sequence of up to MAXLEN lines over a 10-12 symbol alphabet (ordered, equal, "
@@ -53,8 +57,10 @@ def _attrs(direction, mode, numeric):
 def plan(tier, seed):
     jobs = []
     maxlen = MAXLEN[tier]
-    for mode in ("none", "group", "plain", "group2"):
+    for mode in ("none", "group", "plain", "group2", "anchored", "maybe-empty"):
         for numeric in (False, True):
+            if numeric and mode == "maybe-empty":
+                continue      # an empty key is not a number: that combination belongs to C13
             alpha = (ALPHA_NUM if numeric else ALPHA)[mode]
             for di, direction in enumerate(DIRECTIONS):
                 jobs.append({"k": "enum", "mode": mode, "numeric": numeric, "dir": di, "len": (0, min(3, maxlen)), "first": None})
@@ -102,6 +108,19 @@ def run_job(job, ctx):
                 for c in vbatch.run_batch(ctx, blocks, "hash", "keep-sorted", model, sig_prefix="C06",
                                           nontrivial_fn=_nontrivial, sets_fn=_sets):
                     acc.add(c)
+                # the same sequences with the first line on the start tag's line and the last line on the end tag's line
+                # (no empty leading piece, no trailing line terminator), LF and CRLF
+                for eol in ("\n", "\r\n"):
+                    inl = []
+                    for b in blocks:
+                        ls = b.lines
+                        if not ls or any(set(l) & set("/*\u3000\u00a0") for l in ls):
+                            continue
+                        inl.append(vbatch.BBlock(b.attrs, ls[1:-1] if len(ls) >= 2 else [], inline_first=" " + ls[0],
+                                                 inline_last=ls[-1] if len(ls) >= 2 else None))
+                    if inl:
+                        for c in vbatch.run_batch(ctx, inl, "c", "keep-sorted", model, eol=eol, sig_prefix="C06", nontrivial_fn=_nontrivial, sets_fn=_sets):
+                            acc.add(c)
                 del blocks[:]
 
         for L in range(lo, hi + 1):
